@@ -1,8 +1,11 @@
 import XrlParser.Core.Ascii
+import XrlParser.Core.Double
 /-!
 # Hand model of `src/xraylib-parser.c` (core Lean only, executable)
 
-Mirrors the C code **as it is** (including what is wrong with it):
+Mirrors the C code **as it is** (including what is wrong with it).  The `:line` citations refer to the file as first
+shipped (before the repairs C07-1..3 were applied to /repo); the descriptions of C07-4 and C07-5 at `Variant` cite the
+lines of the current /repo (:66, :97, :153, :196, :276):
 
 * `CompoundParserSimple`  xraylib-parser.c:45-319   → `pass1`, `parseAtom`, `atomsLoop`, `groupStep`, `groupsLoop`,
                                                        `parseLevel`, `parseSimple`
@@ -20,7 +23,11 @@ Representation choices (each is part of the trusted reading of C, checked by the
 * `isupper/islower/isdigit` are the C-locale classes on bytes (`isUpperC` … of Core/Ascii.lean: false for every
   byte ≥ 128);
 * numbers are exact rationals (`Rat`): `strtod` on the alphabet `[0-9.]` is the exact decimal; IEEE rounding
-  is absorbed by the comparison tolerance of the correspondence run (DESIGN 2.1);
+  is absorbed by the comparison tolerance of the correspondence run (DESIGN 2.1).  The two edges of the range of
+  `double` are modelled where they are observable, at the conversion of a subscript (Core/Double.lean): a value
+  that `strtod` rounds to `0.0` fails the zero test; a value that it rounds to `+inf` is accepted by the shipped
+  code (flag `ParseOut.ovf`: the counts the C code goes on computing with are non-finite) and rejected with the
+  repair C07-5.  Overflow of the *arithmetic* on the counts (products, sums) is not modelled;
 * `bsearch` is modelled by its contract on a sorted array with distinct keys (= linear search for the key),
   `qsort` by a merge sort (`List.mergeSort`; glibc's `qsort` is one); the contract's precondition for `MendelArraySorted` is checked on every run by
   executing `tablesOK`, for the atom array it is the invariant `Sorted` proved in `Lemmas/Comp.lean`;
@@ -79,6 +86,29 @@ def Err.msg : Err → List Char
   | .zRange => "Z out of range".toList
   | .outOfFuel => "MODEL: out of fuel".toList
 
+/-- Which of the repairs proposed in notes/proposed_fixes/C07-{1,2,3,4,5}.diff the working tree contains.
+    `asIs` is the code as shipped.  The check determines the switches by probing the library built from the
+    working tree on witnesses and then validates the choice by the full correspondence run.
+    * `localeFix`  (C07-1): `backup_locale = xrl_strdup(setlocale(LC_NUMERIC, NULL))` before switching, restored and freed;
+    * `weightFix`  (C07-2): the first loop of lines 353-356 calls `AtomicWeight(Z, error)` and returns NULL when it fails;
+    * `leakFix`    (C07-3): every exit of `CompoundParserSimple` goes through one `cleanup:` that frees what is allocated
+                   (modelled coarsely: nothing is left behind);
+    * `strictFix`  (C07-4): the first-character test (:66) also refuses `'.'`, and the scanning pass refuses a lower-case
+                   letter at depth 0 unless the character before it is an upper-case letter (:97 becomes
+                   `islower(s[i]) && !(i > 0 && isupper(s[i-1]))`), so that every character outside parentheses
+                   belongs to a symbol or to the subscript that directly follows a symbol or a closing parenthesis;
+    * `rangeFix`   (C07-5): the three conversion tests (:153, :196, :276) become
+                   `endPtr != tempSubstring+strlen(tempSubstring) || tempnAtoms > DBL_MAX`. -/
+structure Variant where
+  localeFix : Bool
+  weightFix : Bool
+  leakFix : Bool
+  strictFix : Bool
+  rangeFix : Bool
+  deriving Repr, DecidableEq
+
+def asIs : Variant := ⟨false, false, false, false, false⟩
+
 /-! ## First pass: xraylib-parser.c:70-112 -/
 
 /-- loop state: `nbrackets`, `upper_locs`, `brackets_begin_locs`, `brackets_end_locs` (pointers = suffixes).
@@ -99,22 +129,25 @@ def Scan.blocks (st : Scan) : Nat :=
     arrays allocated so far stay allocated (`return 0` without `free`).
     `nbrackets` is a `Nat`: line 79 followed by line 108 reports `nbrackets < 0` in the same iteration, which
     is the case `nb = 0` at a `')'`.  Line 81 `realloc(.., nbracket_pairs)` + store at `nbracket_pairs-1`
-    is an append, because a pair is begun (0 → 1) exactly once before it is ended (1 → 0). -/
-def pass1 : List Char → Char → Scan → Except (Err × Scan) Scan
+    is an append, because a pair is begun (0 → 1) exactly once before it is ended (1 → 0).
+    With C07-4 the test of line 96 is `islower(s[i]) && !(i > 0 && isupper(s[i-1]))` (same message): for `i = 0`
+    `prev = '\x00'` is not upper case, and a digit is not upper case, so the repaired test is
+    "lower case and (previous is a digit or not an upper-case letter)". -/
+def pass1 (v : Variant) : List Char → Char → Scan → Except (Err × Scan) Scan
   | [], _, st => .ok st
   | c :: rest, prev, st =>
     if c = '(' then                                                                    -- :71-77
-      pass1 rest c { st with nb := st.nb + 1,
-                             begins := if st.nb = 0 then st.begins ++ [c :: rest] else st.begins }
+      pass1 v rest c { st with nb := st.nb + 1,
+                               begins := if st.nb = 0 then st.begins ++ [c :: rest] else st.begins }
     else if c = ')' then                                                               -- :78-84, :108
       if st.nb = 0 then .error (.brackets, st)
-      else pass1 rest c { st with nb := st.nb - 1,
-                                  ends := if st.nb = 1 then st.ends ++ [c :: rest] else st.ends }
-    else if st.nb > 0 then pass1 rest c st                                             -- :85-87
-    else if isUpperC c then pass1 rest c { st with uppers := st.uppers ++ [c :: rest] } -- :88-91
+      else pass1 v rest c { st with nb := st.nb - 1,
+                                    ends := if st.nb = 1 then st.ends ++ [c :: rest] else st.ends }
+    else if st.nb > 0 then pass1 v rest c st                                             -- :85-87
+    else if isUpperC c then pass1 v rest c { st with uppers := st.uppers ++ [c :: rest] } -- :88-91
     else if c = ' ' then .error (.space, st)                                           -- :92-95
-    else if isLowerC c && isDigitC prev then .error (.lowerAfterDigit, st)               -- :96-99
-    else if isLowerC c || isDigitC c || c = '.' then pass1 rest c st                     -- :100-102
+    else if isLowerC c && (isDigitC prev || (v.strictFix && !isUpperC prev)) then .error (.lowerAfterDigit, st)   -- :96-99 (C07-4)
+    else if isLowerC c || isDigitC c || c = '.' then pass1 v rest c st                   -- :100-102
     else .error (.invalidChar c, st)                                                   -- :103-106
 
 /-! ## Subscripts: the `ndots` loop and `strtod` (lines 135-163, 176-204, 253-280) -/
@@ -146,19 +179,23 @@ def strtod (s : List Char) : Nat × Rat :=
     else (ip.length + 1 + fp.length, (digitsVal (ip ++ fp) : Rat) / ((10 ^ fp.length : Nat) : Rat))
   | _ => if ip.isEmpty then (0, 0) else (ip.length, (digitsVal ip : Rat))
 
+/-- the subscript that starts at `p` is converted by `strtod` to `+inf` -/
+def subOvf (p : List Char) : Bool := dblRoundsToInf (strtod (p.take (scanSub p).1)).2
+
 /-- subscript that starts at `p`; the error carries the number of temporary blocks live at the `return 0`
     (`tempSubstring`).  `zeroErr` is the error of the zero test: `zero` after a symbol (:159,:200), the
-    *conversion* message after a bracket (:276). -/
-def subscript (zeroErr : List Char → Err) (p : List Char) : Except (Err × Nat) Rat :=
+    *conversion* message after a bracket (:276).  When the result is `.ok n` and `subOvf p` holds, the C variable
+    `tempnAtoms` is `+inf`, not `n` (only possible without C07-5). -/
+def subscript (v : Variant) (zeroErr : List Char → Err) (p : List Char) : Except (Err × Nat) Rat :=
   let r := scanSub p
   if r.2 > 1 then .error (.dots, 0)                         -- :142
   else if r.1 = 0 then .ok 1                                -- :146  tempnAtoms = 1.0
   else
     let sub := p.take r.1                                   -- :150  xrl_strndup
     let c := strtod sub                                     -- :151
-    if c.1 ≠ sub.length then .error (.convert sub, 1)       -- :152
-    else if c.2 = 0 then .error (zeroErr sub, 1)            -- :158
-    else .ok c.2                                            -- :162 free(tempSubstring)
+    if c.1 ≠ sub.length || (v.rangeFix && dblRoundsToInf c.2) then .error (.convert sub, 1)   -- :152 (C07-5: `|| tempnAtoms > DBL_MAX`)
+    else if dblRoundsToZero c.2 then .error (zeroErr sub, 1)  -- :158 `tempnAtoms == 0.0`: the value 0, or a positive value `strtod` rounds to 0.0
+    else .ok c.2                                            -- :162 free(tempSubstring); without C07-5 possibly `+inf`: see `subOvf`
 
 /-! ## Symbols: lines 125-210 -/
 
@@ -170,13 +207,13 @@ def lookupSym (T : Tables) (key : List Char) : Option Nat :=
     the `return 0` (`tempElement`, `tempSubstring`).
     Reads: `loc[1]` always (at worst the terminator); `loc[2]` only if `loc[1]` is lower case, hence not the
     terminator — no read past the end. -/
-def parseAtom (T : Tables) (loc : List Char) : Except (Err × Nat) (Nat × Rat) :=
+def parseAtom (v : Variant) (T : Tables) (loc : List Char) : Except (Err × Nat) (Nat × Rat) :=
   if isLowerC (cAt loc 1) && !isLowerC (cAt loc 2) then                                  -- :125
     let el := loc.take 2                                                               -- :127
     match lookupSym T el with
     | none => .error (.unknownSymbol el, 1)                                            -- :130-133
     | some Z =>
-      match subscript (fun _ => .zero) (loc.drop 2) with
+      match subscript v (fun _ => .zero) (loc.drop 2) with
       | .error (e, k) => .error (e, k + 1)
       | .ok n => .ok (Z, n)
   else if !isLowerC (cAt loc 1) then                                                    -- :166
@@ -184,7 +221,7 @@ def parseAtom (T : Tables) (loc : List Char) : Except (Err × Nat) (Nat × Rat) 
     match lookupSym T el with
     | none => .error (.unknownSymbol el, 1)
     | some Z =>
-      match subscript (fun _ => .zero) (loc.drop 1) with
+      match subscript v (fun _ => .zero) (loc.drop 1) with
       | .error (e, k) => .error (e, k + 1)
       | .ok n => .ok (Z, n)
   else .error (.formula, 0)                                                            -- :207-210
@@ -228,16 +265,16 @@ structure Fail where
   deriving Repr
 
 /-- the loop of lines 124-237 over `upper_locs`.  Error: (error, live temporaries, `ca` so far). -/
-def atomsLoop (T : Tables) : List (List Char) → Atoms → Except (Err × Nat × Atoms) Atoms
+def atomsLoop (v : Variant) (T : Tables) : List (List Char) → Atoms → Except (Err × Nat × Atoms) Atoms
   | [], ca => .ok ca
   | loc :: locs, ca =>
-    match parseAtom T loc with
+    match parseAtom v T loc with
     | .error (e, k) => .error (e, k, ca)
-    | .ok (Z, n) => atomsLoop T locs (addAtom ca Z n)
+    | .ok (Z, n) => atomsLoop v T locs (addAtom ca Z n)
 
 /-- one iteration of the loop of lines 242-310.  `rec` is the recursive call of line 248.
     state: (`ca`, blocks already leaked by earlier iterations). -/
-def groupStep (rec : List Char → Except Fail (Atoms × Nat)) (acc : Atoms × Nat) (be : List Char × List Char) :
+def groupStep (v : Variant) (rec : List Char → Except Fail (Atoms × Nat)) (acc : Atoms × Nat) (be : List Char × List Char) :
     Except Fail (Atoms × Nat) :=
   let ca := acc.1
   let b := be.1
@@ -249,45 +286,67 @@ def groupStep (rec : List Char → Except Fail (Atoms × Nat)) (acc : Atoms × N
     .error ⟨f.err, f.leak + (if f.caAlloc then 1 else 0) + 2 + acc.2, !ca.isEmpty⟩
   | .ok (sub, l) =>
     -- :251 free(tempBracketString); live: tempBracketAtoms, its singleElements, what the callee leaked
-    match subscript (fun s => .convert s) (e.drop 1) with                               -- :253-280
+    match subscript v (fun s => .convert s) (e.drop 1) with                               -- :253-280
     | .error (er, k) => .error ⟨er, k + 2 + l + acc.2, !ca.isEmpty⟩
     | .ok n =>
       if ca.isEmpty then .ok (addGroup ca sub n, acc.2 + l + 1)   -- :283-289 `tempBracketAtoms` itself is never freed
       else .ok (addGroup ca sub n, acc.2 + l)                     -- :290-309
 
-def groupsLoop (rec : List Char → Except Fail (Atoms × Nat)) :
+def groupsLoop (v : Variant) (rec : List Char → Except Fail (Atoms × Nat)) :
     List (List Char × List Char) → Atoms × Nat → Except Fail (Atoms × Nat)
   | [], acc => .ok acc
   | be :: rest, acc =>
-    match groupStep rec acc be with
+    match groupStep v rec acc be with
     | .error f => .error f
-    | .ok acc' => groupsLoop rec rest acc'
+    | .ok acc' => groupsLoop v rec rest acc'
 
 /-- body of `CompoundParserSimple` with the recursive call abstracted; `ca` is empty on entry at both call
     sites (:248 `nElements = 0`, :325 `{0, NULL}`).  Result: (atoms, blocks leaked on the success path). -/
-def parseLevel (T : Tables) (rec : List Char → Except Fail (Atoms × Nat)) (s : List Char) :
+def parseLevel (v : Variant) (T : Tables) (rec : List Char → Except Fail (Atoms × Nat)) (s : List Char) :
     Except Fail (Atoms × Nat) :=
-  if isLowerC (cAt s 0) || isDigitC (cAt s 0) then .error ⟨.firstChar, 0, false⟩         -- :65-68
+  if isLowerC (cAt s 0) || isDigitC (cAt s 0) || (v.strictFix && cAt s 0 = '.') then .error ⟨.firstChar, 0, false⟩   -- :65-68 (C07-4)
   else
-    match pass1 s '\x00' {} with
+    match pass1 v s '\x00' {} with
     | .error (e, st) => .error ⟨e, st.blocks, false⟩
     | .ok st =>
       if st.uppers.isEmpty && st.begins.isEmpty then .error ⟨.noElements, st.blocks, false⟩   -- :114
       else if st.nb > 0 then .error ⟨.brackets, st.blocks, false⟩                              -- :118
       else
-        match atomsLoop T st.uppers [] with
+        match atomsLoop v T st.uppers [] with
         | .error (e, k, ca) => .error ⟨e, k + st.blocks, !ca.isEmpty⟩
         | .ok ca =>
           -- :238 free(upper_locs)
           let frame := { st with uppers := [] }.blocks
-          match groupsLoop rec (st.begins.zip st.ends) (ca, 0) with
+          match groupsLoop v rec (st.begins.zip st.ends) (ca, 0) with
           | .error f => .error ⟨f.err, f.leak + frame, f.caAlloc⟩
           | .ok r => .ok r                                                              -- :311-314 free both arrays
 
 /-- `CompoundParserSimple`; the recursion is on a strictly shorter string, `fuel` makes it structural. -/
-def parseSimple (T : Tables) : Nat → List Char → Except Fail (Atoms × Nat)
+def parseSimple (v : Variant) (T : Tables) : Nat → List Char → Except Fail (Atoms × Nat)
   | 0, _ => .error ⟨.outOfFuel, 0, false⟩
-  | fuel + 1, s => parseLevel T (parseSimple T fuel) s
+  | fuel + 1, s => parseLevel v T (parseSimple v T fuel) s
+
+/-! ## Which conversions of an accepting run produced `+inf`
+
+On a run of `CompoundParserSimple` that returns 1 every recorded symbol and every recorded bracket pair has been
+visited and its subscript converted (a failure anywhere returns 0).  The following mirrors that traversal (same
+first pass, same positions) and reports whether one of those conversions returned `+inf`.  It is meaningful only
+for an accepted string; `compoundParser` evaluates it only then. -/
+
+/-- the subscript of the symbol at `loc` (position as computed at :125 / :166) -/
+def atomOvf (loc : List Char) : Bool :=
+  if isLowerC (cAt loc 1) && !isLowerC (cAt loc 2) then subOvf (loc.drop 2) else subOvf (loc.drop 1)
+
+def levelOvf (v : Variant) (rec : List Char → Bool) (s : List Char) : Bool :=
+  match pass1 v s '\x00' {} with
+  | .error _ => false
+  | .ok st =>
+    st.uppers.any atomOvf ||
+    (st.begins.zip st.ends).any (fun be => rec ((be.1.drop 1).take (be.1.length - be.2.length - 1)) || subOvf (be.2.drop 1))
+
+def simpleOvf (v : Variant) : Nat → List Char → Bool
+  | 0, _ => false
+  | fuel + 1, s => levelOvf v (simpleOvf v fuel) s
 
 /-! ## `CompoundParser`: lines 324-374 -/
 
@@ -324,28 +383,15 @@ structure ParseOut where
   result : Except Err CompoundData
   live : Nat            -- blocks allocated by the call and live when it returns (result included)
   locale : Locale       -- LC_NUMERIC after the call
+  ovf : Bool            -- accepted, and a subscript was converted to `+inf`: the numbers of `result` are not those of the
+                        -- C code, which are non-finite (`inf` counts, `inf` totals, `NaN`/0 fractions)
   deriving Repr
 
 def cdiv (a b : Rat) : Option Rat := if b = 0 then none else some (a / b)
 
-/-- Which of the three repairs proposed in notes/proposed_fixes/C07-{1,2,3}.diff the working tree contains.
-    `asIs` is the code as shipped.  The check determines the switches by probing the library built from the
-    working tree on three witnesses and then validates the choice by the full correspondence run.
-    * `localeFix`  (C07-1): `backup_locale = xrl_strdup(setlocale(LC_NUMERIC, NULL))` before switching, restored and freed;
-    * `weightFix`  (C07-2): the first loop of lines 353-356 calls `AtomicWeight(Z, error)` and returns NULL when it fails;
-    * `leakFix`    (C07-3): every exit of `CompoundParserSimple` goes through one `cleanup:` that frees what is allocated
-                   (modelled coarsely: nothing is left behind). -/
-structure Variant where
-  localeFix : Bool
-  weightFix : Bool
-  leakFix : Bool
-  deriving Repr, DecidableEq
-
-def asIs : Variant := ⟨false, false, false⟩
-
 def compoundParser (v : Variant) (T : Tables) (l : Locale) (s : Option (List Char)) : ParseOut :=
   match s with
-  | none => ⟨.error .null, 0, l⟩                                                        -- :332-335
+  | none => ⟨.error .null, 0, l, false⟩                                                        -- :332-335
   | some s =>
     -- :338 as shipped: backup_locale = setlocale(LC_NUMERIC, "C") = the NEW name;
     -- C07-1: backup_locale = strdup(setlocale(LC_NUMERIC, NULL)), then setlocale(LC_NUMERIC, "C")
@@ -353,22 +399,22 @@ def compoundParser (v : Variant) (T : Tables) (l : Locale) (s : Option (List Cha
     let r1 := setlocaleNumeric l (some ['C'])
     let backup := if v.localeFix then r0.1 else r1.1
     -- :340 compoundStringCopy (1 block)
-    let rv := parseSimple T (s.length + 1) s                                            -- :342
+    let rv := parseSimple v T (s.length + 1) s                                            -- :342
     let r2 := setlocaleNumeric r1.2 backup                                              -- :344 (C07-1: free(backup_locale))
     match rv with
     | .ok (ca, leaked) =>                                                               -- :346-367
       let leaked := if v.leakFix then 0 else leaked
       if v.weightFix && ca.any (fun e => atomicWeight T e.1 = 0) then
-        ⟨.error .zRange, leaked, r2.2⟩                  -- C07-2: everything allocated here is freed again
+        ⟨.error .zRange, leaked, r2.2, false⟩                  -- C07-2: everything allocated here is freed again
       else
       let sum := ca.foldl (fun acc e => acc + atomicWeight T e.1 * e.2) 0               -- :353-356
       let all := ca.foldl (fun acc e => acc + e.2) 0
       ⟨.ok { elements := ca.map (·.1), nAtoms := ca.map (·.2),
              massFractions := ca.map (fun e => cdiv (atomicWeight T e.1 * e.2) sum),   -- :359
              nAtomsAll := all, molarMass := sum },
-       leaked + 4, r2.2⟩                                  -- cd + 3 arrays; ca.singleElements and the copy freed
+       leaked + 4, r2.2, simpleOvf v (s.length + 1) s⟩                                  -- cd + 3 arrays; ca.singleElements and the copy freed
     | .error f =>                                        -- :368-373 frees ca.singleElements (if any) and the copy
-      ⟨.error f.err, if v.leakFix then 0 else f.leak, r2.2⟩
+      ⟨.error f.err, if v.leakFix then 0 else f.leak, r2.2, false⟩
 
 /-- live blocks after `FreeCompoundData` (4 frees) -/
 def liveAfterFree (o : ParseOut) : Nat :=
